@@ -585,6 +585,10 @@ class ProceduralResolver:
 	# Operator
 
 	def on_factor(self, node: defs.Factor, operator: IReflection, value: IReflection) -> IReflection:
+		# bool値に対する単項演算(-True, +True, ~True)の結果はint
+		if value.impl(refs.Object).type_is(bool):
+			return self.reflections.from_standard(int).stack(node)
+
 		return value.stack(node)
 
 	def on_not_compare(self, node: defs.NotCompare, operator: IReflection, value: IReflection) -> IReflection:
